@@ -52,6 +52,8 @@ var c15RunSingles = map[string][]string{
 	"proxy.shutdownwait":              {"0s", "-1s"},
 	"proxy.flushinterval":             {"0s", "-1s"},
 	"registry.consul.service.status":  {"", ","},
+	"proxy.strategy":                  {"foo", ""},
+	"proxy.matcher":                   {"foo", ""},
 }
 
 func c15RunLoad(c *c15RunCase, path string) (cfg *config.Config, err error, p any, stack string) {
